@@ -27,7 +27,7 @@ structure Rec where
   dec : String → Bytes → R Val
   size : String → Val → R Nat
 
-/-- Counted arrays longer than this are outside the modelled domain: `encode` and `decode` answer
+/-- Arrays longer than this are outside the modelled domain: `encode` and `decode` answer
     `unsupported` (the Python code has no such limit; the correspondence check skips such inputs). -/
 def maxCount : Nat := 100000
 
@@ -433,14 +433,17 @@ def decPayload (S : Schema) (T : String → Bytes → Bytes) (rec : Rec) (env : 
       let n ← envInt env sf
       let window := view.take n.toNat
       let l ← decArrayAligned rec elem align padLast (window.length + 1) window
+      if l.length > maxCount then throw .unsupported
       .ok (.arr l, n.toNat)
     | .fill =>
       if align != 0 then do
         let l ← decArrayAligned rec elem align padLast (view.length + 1) view
+        if l.length > maxCount then throw .unsupported
         let ss ← elemSizes rec elem l
         .ok (.arr l, arraySize ss align padLast)
       else do
         let l ← decArrayFill rec elem (view.length + 1) view
+        if l.length > maxCount then throw .unsupported
         let ss ← elemSizes rec elem l
         .ok (.arr l, arraySize ss 0 padLast)
 
